@@ -57,7 +57,9 @@ def catalog():
         "product-layout": ("product-layout", 100, "ProductKernel slice arithmetic = assembly order of the product's value vector (P block, S block, mode selectors, magnetic block)", __import__("sa.rules.c07", fromlist=["x"]).rule_layout),
         "minmax": ("minmax", 18, "min/max effective-radius modes select by the ordering of their own candidates (all models)", __import__("sa.rules.extra3", fromlist=["x"]).rule_c14_minmax),
         "pymodel": ("pymodel", 20, "python functions of the model files: no uninitialised memory, no state kept, no in-place update of their (persistent) arguments", __import__("sa.rules.extra3", fromlist=["x"]).rule_c11_pymodel),
-        "drivers": ("drivers", 50, "dll/OpenCL/CUDA drivers agree on kernel arguments, result size, read-back, kernel selection and q layout", gpu.rule_drivers),
+        "intdiv": ("intdiv", 120, "no truncating division of two integer literals in any model unit (double-precision dll units and single-precision OpenCL units)", __import__("sa.rules.extra3", fromlist=["x"]).make_intdiv_rule(("dll", "opencl-f32"))),
+        "fastpath": ("fastpath", 55, "equality-guarded special branches of model code agree with the general branch at the same point (all models)", __import__("sa.rules.extra3", fromlist=["x"]).rule_c14_fastpath),
+        "drivers": ("drivers", 53, "dll/OpenCL/CUDA drivers agree on kernel arguments, result size, read-back, kernel selection and q layout", gpu.rule_drivers),
         "gpu": ("gpu", 2000, "OpenCL configuration of the kernels: work-item bound, carried q-point sums, gated accumulation (all units)", gpu.make_gpu_rule()),
         "eqvol": ("eqvol", 15, "equivalent-volume-sphere radius mode agrees with form_volume in every model", c14.make_c_rule("R-C14-eqvol")),
         "modes": ("modes", 55, "radius_effective mode list <-> case labels in every model", c14.make_c_rule("R-C14-modes")),
